@@ -172,13 +172,9 @@ func bytesOfLen(t *rapid.T, label string) []byte {
 	return b
 }
 
-func pick[T any](t *rapid.T, label string, xs []T) T {
-	return xs[rapid.IntRange(0, len(xs)-1).Draw(t, label)]
-}
+func pick[T any](t *rapid.T, label string, xs []T) T { return kit.Pick(t, label, xs) }
 
-func chance(t *rapid.T, label string, percent int) bool {
-	return rapid.IntRange(0, 99).Draw(t, label) < percent
-}
+func chance(t *rapid.T, label string, percent int) bool { return kit.Chance(t, label, percent) }
 
 func genHostileFees(t *rapid.T) []kit.Fee {
 	n := rapid.IntRange(0, 7).Draw(t, "hf/n")
